@@ -30,12 +30,10 @@ mod kani_harnesses {
 
     // C06: Frame::parse is total on every buffer of up to 18 bytes (BOUNDED): never panics, never claims more bytes than
     // buffered for a decoded or skipped message
-    #[kani::proof]
-    #[kani::unwind(22)]
-    fn kani_frame_parse_total_18() {
-        let buf: [u8; 18] = kani::any();
+    fn frame_parse_total<const N: usize>() {
+        let buf: [u8; N] = kani::any();
         let n: usize = kani::any();
-        kani::assume(n <= 18);
+        kani::assume(n <= N);
         let mut crs = Cursor::new(&buf[..n]);
         match Frame::parse(&mut crs) {
             Ok(_) => assert!(crs.position() as usize <= n && crs.position() >= 4),
@@ -43,4 +41,14 @@ mod kani_harnesses {
             Err(_) => (),
         }
     }
+    #[kani::proof]
+    #[kani::unwind(22)]
+    fn kani_frame_parse_total_18() { frame_parse_total::<18>(); }
+    // thorough tier: 72 bytes, which is longer than a whole handshake (68) and holds a Piece / Bitfield with a real payload
+    #[kani::proof]
+    #[kani::unwind(76)]
+    fn kani_frame_parse_total_72() { frame_parse_total::<72>(); }
+    #[kani::proof]
+    #[kani::unwind(76)]
+    fn kani_frame_parse_total_66000() { frame_parse_total::<66000>(); }
 }
